@@ -438,3 +438,52 @@ pub fn check_ns_skip_shape(raw: &[u8], call: u8, with_text: bool) -> Outcome {
     core::mem::forget(ns);
     Outcome::Pass
 }
+
+/// K: the first `k` items of `prefixes()` over 2 user bindings of the shape, one `next()` at a time
+/// (iterating the listing to its end inside one query exhausts memory).
+pub fn check_ns_iter_k(raw: &[u8], shape: usize, k: usize) -> Outcome {
+    let mut r = Raw::new(raw);
+    let (m0, nesting) = build(&mut r, shape);
+    let mut m = m0;
+    m.n = 2;
+    require!(valid(&m, nesting) && nesting >= 1);
+    let res = real(&m, nesting);
+    // reference listing: bindings in declaration order, skipping overridden and unbound ones
+    let mut want = [(0usize, false); 2];
+    let mut nw = 0usize;
+    let mut i = 0;
+    while i < 2 {
+        let pfx = if m.pl[i] == 0 { None } else { Some(m.p[i][0]) };
+        if m.lookup(pfx) == Some(i) && m.ul[i] == 1 {
+            want[nw] = (i, true);
+            nw += 1;
+        }
+        i += 1;
+    }
+    let mut it = res.iter();
+    let mut j = 0;
+    while j < k {
+        let got = it.next();
+        if j < nw {
+            let e = want[j].0;
+            match got {
+                Some((decl, Namespace(ns))) => {
+                    let ok_p = match decl {
+                        PrefixDeclaration::Default => m.pl[e] == 0,
+                        PrefixDeclaration::Named(p) => m.pl[e] == 1 && p.len() == 1 && p[0] == m.p[e][0],
+                    };
+                    ensure!(ok_p && ns.len() == 1 && ns[0] == m.u[e][0], "C05: prefix listing shows the binding in scope");
+                }
+                None => {
+                    ensure!(false, "C05: prefix listing shows every binding in scope exactly once");
+                }
+            }
+        } else {
+            ensure!(got.is_none(), "C05: prefix listing shows only bindings that are in scope");
+        }
+        j += 1;
+    }
+    witness!(nw == 1 && want[0].0 == 1, "first binding skipped, second listed");
+    core::mem::forget(res);
+    Outcome::Pass
+}
